@@ -62,7 +62,7 @@ def main():
             "name": "gokrb5lint",
             "path": "checker/",
             "serves_properties": [c["property_id"] for c in out_checks],
-            "kind_free_text": "repository-specific static analyser (Go, go/packages + go/types + go/ssa + VTA call graph): check-list/guard dominance, provenance by access path, lockset, bounds obligations, constant/tag tables vs RFC reference tables, taint; rebuilt by setup_cmd, loads /repo/v8's working tree on every run",
+            "kind_free_text": "repository-specific static analyser (Go, go/packages + go/types + go/ssa + VTA call graph): check-list/guard dominance (syntactic matcher with a scenario-evaluation fallback), provenance by access path, byte-placement analysis of assembled buffers, lockset, bounds obligations with a linear prover, write-through and package-state summaries, constant/tag tables vs RFC reference tables, taint, one syntax-tree rule; rebuilt by setup_cmd, loads /repo/v8's working tree on every run",
         }],
         "checks": out_checks,
         "not_applicable": [{"property_id": k, "reason": v} for k, v in sorted(na.items())],
